@@ -102,26 +102,30 @@ Section FileCache.
     let s1 := if fs_islink s loc then fs_del s loc else s in
     fs_put s1 loc (NFile (fs_fresh s1) b).
 
-  (* _store_single_color_tile (repaired code, commit 78090d4):
+  (* _store_single_color_tile (repaired code, commits 78090d4, 2fca53a, a70c88a):
        if not os.path.exists(real): self._store(tile, real)
-       if os.path.exists(tile_loc) and os.path.samefile(real, tile_loc): return
-       os.link(real, tmp) / os.symlink(relpath(real), tmp); os.rename(tmp, tile_loc) *)
+       if link == 'hardlink' and os.path.exists(tile_loc) and os.path.samefile(real, tile_loc):
+           self._set_stored_metadata(tile, tile_loc); return
+       os.link(real, tmp) / os.symlink(relpath(real), tmp); os.rename(tmp, tile_loc)
+       self._set_stored_metadata(tile, tile_loc)
+     _set_stored_metadata lstat()s tile_loc (it exists at both places) and writes timestamp and size into the
+     Tile object, which is not part of the persistent state.  In symlink mode the link is always created anew. *)
   Definition fstore_mono (s : fs) (loc : path) (b : bytes) (c : Z) : fs :=
     let real := sc_path ext c in
     let s1 := if fs_exists s real then s else fstore_plain s real b in
-    if fs_exists s1 loc && fs_samefile s1 real loc then s1
-    else
-      match link with
-      | LHard =>
+    match link with
+    | LHard =>
+      if fs_exists s1 loc && fs_samefile s1 real loc then s1
+      else
         (* os.link(real, tmp): a second name for the inode of real (ENOENT cannot happen: real exists) *)
         match fs_get s1 real with
         | Some n => fs_put s1 loc n
         | None => s1
         end
-      | _ =>
-        (* the relative target resolves to real *)
-        fs_put s1 loc (NSym real)
-      end.
+    | _ =>
+      (* the relative target resolves to real *)
+      fs_put s1 loc (NSym real)
+    end.
 
   (* store_tile (tile.stored is False) *)
   Definition fstore (s : fs) (a : addr) (b : bytes) : fs :=
